@@ -13,6 +13,13 @@ underscore), in one metamodel (linked) or in two metamodels of the same process
 (unlinked). Every write/delete/constructor form on either instance is
 followed by every read route on BOTH instances, so a spelling resolved for one
 class is afterwards used on the other.
+
+Null family (NullModel): per core type an identifying and a plain attribute
+that really hold None or a null-ish value (0, '', 0.0, False), written /
+constructed / loaded under every spelling; every spelling is read (compared by
+type and value), filtered (whole selections, six routes) and serialised, and
+the referential attributes derived from the identifying one are read through
+two associations that spell the key differently.
 '''
 import itertools
 import json
